@@ -321,6 +321,14 @@ def enum_large(tier):
         for order, rev, inc in (("F", False, [True, True, True]), ("C", True, [True, False, True])):
             yield {"cls": "uni", "dims": dims, "spacing": [1.0, 0.5, 2.0], "origin": [0.0, 0.0, 4.0], "inc": inc, "order": order, "rev": rev, "loc": "CELLS"}
     yield {"cls": "esri", "ncols": 300, "nrows": 260, "cellsize": 2.0, "xll": 10.0, "yll": -6.0, "order": "C"}
+    # every row length from 2 to 400 cells (two or three rows): index arithmetic that is exact only for some lengths
+    for n in range(2, 401):
+        k = n % 4
+        yield {"cls": "uni", "dims": [n + 1, 3 + (n % 2)], "spacing": [0.5, 2.0], "origin": [1.0, -8.0], "inc": [k != 1, k != 2],
+               "order": "F" if k < 2 else "C", "rev": k == 3, "loc": "CELLS" if n % 3 else "POINTS"}
+    for n in (49, 98, 103, 107, 161, 187, 196, 197, 255, 256, 257):
+        yield {"cls": "esri", "ncols": n, "nrows": 3, "cellsize": 2.0, "xll": 10.0, "yll": -6.0, "order": "C"}
+        yield {"cls": "uni", "dims": [3, n + 1, 1], "spacing": [1.0, 0.5, 2.0], "origin": [0.0, 0.0, 4.0], "inc": [True, True, True], "order": "F", "rev": False, "loc": "CELLS"}
     yield {"cls": "rect_arange", "n": 70002, "order": "C", "loc": "CELLS"}
     yield {"cls": "rect_arange", "n": 65538, "order": "F", "loc": "POINTS"}
     for q, t in ((70000, 0), (40000, 70000), (65537, 65537), (66000, 100)):
